@@ -16,7 +16,7 @@ TECHNIQUE = "fault enumeration over Hypothesis-seeded generated valid programs: 
 RULE = (
     "hosts: generated valid programs (C03 profile, some split into .include files).  Faults: invalid character, unterminated string, truncated operand `lda #`, unbalanced `}`, unknown keyword, undefined symbol in a sized operand / "
     "data directive / = definition, undefined macro, too few macro arguments, undefined addressing mode `nop #0`, undefined width `rep.w #1` / `lda.l #1`, out-of-range branch, unmapped `*=`, missing .include / .incbin / .table / "
-    ".include_ips file, unterminated /* comment — inserted at every statement boundary of the top level, blocks, named scopes and included files.  Oracle: "
+    ".include_ips file, unterminated /* comment — inserted at every statement boundary that is certainly assembled (top level, blocks, named scopes, included files, literal-taken .if branches, literal-bounded loop bodies, bodies of applied macros).  Oracle: "
     "faulted => string API returns an error or raises; assemble / assemble_as_patch return non-zero or raise; CLI exit status != 0 and no success announcement.  Un-faulted => None / 0 / exit 0 and the output file equals the in-memory "
     "result.  Non-trivial = fault position > 0 and entry point other than the string API; distinct = distinct (host, fault, position, entry) tuples, counted."
 )
@@ -98,18 +98,12 @@ def hyp_examples(tier):
 
 
 def insertion_points(ir):
-    """(steps, index) for every statement boundary of the top level, blocks, named scopes and included files"""
-    pts = []
+    """(steps, index) for every statement boundary where a statement is certainly assembled: top level, blocks, named
+    scopes, included files, the taken branch of a .if whose condition is a literal, loop bodies with literal bounds
+    and at least one iteration, bodies of macros applied from such a place"""
+    from checks.c17 import insertion_points as pts17
 
-    def go(stmts, steps):
-        for i in range(len(stmts) + 1):
-            pts.append((steps, i))
-        for i, st in enumerate(stmts):
-            if st["k"] in ("block", "scope", "include"):
-                go(st["b"], steps + ((i, "b"),))
-
-    go(ir, ())
-    return pts
+    return [(steps, index) for steps, index, certain in pts17(ir, loops=True) if certain]
 
 
 def inject(ir, steps, index, lines):
